@@ -254,7 +254,7 @@ async fn server_task(is_ws: bool, listener: tokio::net::TcpListener, mut cmds: t
                     if r.is_err() {
                         break;
                     }
-                    if i != last {
+                    if i != last && last <= 12 {
                         tokio::time::sleep(Duration::from_millis(3)).await;
                     }
                 }
@@ -524,6 +524,35 @@ fn cut_points(lens: &[usize], seed: u64, max_cuts: usize) -> Vec<usize> {
         base += len;
     }
     cuts
+}
+const ONE_BYTE: u64 = 1 << 40;
+/// One WebSocket frame (server to client: unmasked). `first` = 0x82 whole binary message, 0x02 first
+/// fragment, 0x00 middle fragment, 0x80 last fragment.
+fn ws_frame(first: u8, payload: &[u8]) -> Vec<u8> {
+    let mut v = vec![first];
+    match payload.len() {
+        n if n < 126 => v.push(n as u8),
+        n if n < 65536 => { v.push(126); v.extend_from_slice(&(n as u16).to_be_bytes()); }
+        n => { v.push(127); v.extend_from_slice(&(n as u64).to_be_bytes()); }
+    }
+    v.extend_from_slice(payload);
+    v
+}
+/// A REPE message as a fragmented WebSocket message (2–3 fragments, cut points from the PRNG).
+fn ws_fragmented(msg: &[u8], r: &mut Rng) -> Vec<u8> {
+    if msg.len() < 3 {
+        return ws_frame(0x82, msg);
+    }
+    let a = 1 + r.below(msg.len() as u64 - 2) as usize;
+    let mut out = ws_frame(0x02, &msg[..a]);
+    if r.chance(1, 2) && msg.len() - a >= 2 {
+        let b = a + 1 + r.below((msg.len() - a - 1) as u64) as usize;
+        out.extend(ws_frame(0x00, &msg[a..b]));
+        out.extend(ws_frame(0x80, &msg[b..]));
+    } else {
+        out.extend(ws_frame(0x80, &msg[a..]));
+    }
+    out
 }
 /// An error response (ec != 0, UTF-8 message body).
 fn error_response(id: u64, ec: u32) -> Vec<u8> {
@@ -795,12 +824,28 @@ fn run_mux_case(h: &H, out: &mut Out, idx: &str, case: &MuxCase) {
         wire.push(response(unknown_base + 999_999, true, -1, -1)); // end marker for the subscriber
     }
     // one write per frame on even cases, one coalesced write on odd ones (TCP only)
-    if case.kind != 2 && case.frag != 0 {
+    if case.kind == 2 && case.frag != 0 {
+        // every message as 2–3 WebSocket fragments, written beneath the WebSocket layer, the byte stream cut again
+        let mut r = Rng::new(case.frag);
+        let frames: Vec<Vec<u8>> = wire.iter().map(|m| ws_fragmented(m, &mut r)).collect();
+        let lens: Vec<usize> = frames.iter().map(|f| f.len()).collect();
+        let all = frames.concat();
+        let mut pieces = Vec::new();
+        let mut last = 0usize;
+        for c in cut_points(&lens, case.frag ^ 0x5555, 8) {
+            pieces.push(all[last..c].to_vec());
+            last = c;
+        }
+        pieces.push(all[last..].to_vec());
+        out.count(&format!("mux.ws_fragments.{}", pieces.len().min(6)));
+        s.send(Cmd::SendPieces(pieces));
+    } else if case.kind != 2 && case.frag != 0 {
         let lens: Vec<usize> = wire.iter().map(|f| f.len()).collect();
         let all = wire.concat();
         let mut pieces = Vec::new();
         let mut last = 0usize;
-        for c in cut_points(&lens, case.frag, 10) {
+        let cuts: Vec<usize> = if case.frag & ONE_BYTE != 0 && all.len() <= 4096 { (1..all.len()).collect() } else { cut_points(&lens, case.frag, 10) };
+        for c in cuts {
             pieces.push(all[last..c].to_vec());
             last = c;
         }
@@ -1037,6 +1082,27 @@ fn run_seq_case(h: &H, out: &mut Out, idx: &str, kind: usize, t: usize, k: usize
             });
         }
     }
+    let stop = std::sync::Arc::new(std::sync::atomic::AtomicBool::new(false));
+    {
+        let stop = stop.clone();
+        let cl = s.cl.clone();
+        let rt = h.rt.handle().clone();
+        std::thread::spawn(move || {
+            let _g = rt.enter(); // the WebSocket client's Drop looks for a runtime
+            let mut n = 0u64;
+            while !stop.load(std::sync::atomic::Ordering::Relaxed) && n < 2_000_000 {
+                let c2 = cl.clone();
+                if let Cl::W(w) = &c2 {
+                    let _ = w.limits();
+                }
+                drop(c2);
+                n += 1;
+                if n % 64 == 0 {
+                    std::thread::yield_now();
+                }
+            }
+        });
+    }
     let (dtx, drx) = smpsc::channel::<(usize, usize, String)>();
     for w in 0..t {
         let dtx = dtx.clone();
@@ -1150,6 +1216,7 @@ fn run_seq_case(h: &H, out: &mut Out, idx: &str, kind: usize, t: usize, k: usize
             Err(_) => break,
         }
     }
+    stop.store(true, std::sync::atomic::Ordering::Relaxed);
     out.count(&format!("mux.{}.seq", kname));
     out.case(&op, &format!("{} ok {}", idx, okc), true);
     s.send(Cmd::Close);
@@ -1251,7 +1318,23 @@ fn run_fwd_case(h: &H, out: &mut Out, idx: &str, mode: &str) {
     };
     match mode {
         "ids" => {
-            for (k, id) in [0u64, 1, 7, 1 << 32, u64::MAX - 1, u64::MAX].into_iter().enumerate() {
+            // ids of the ordinary calls made before, between and after the forwards
+            let mut issued: Vec<u64> = Vec::new();
+            let fwd_ids = [0u64, 7, 1 << 32, u64::MAX - 2, u64::MAX - 1, u64::MAX, 1];
+            for pre in 0..3usize {
+                let c = 200 + pre;
+                s.call(h, c, req_body(c), None);
+                let deadline = Instant::now() + call_watchdog();
+                let mut got = None;
+                while Instant::now() < deadline && got.is_none() {
+                    match s.ev.recv_timeout(Duration::from_millis(50)) {
+                        Ok(Event::Req(f)) if caller_of(&f) == Some(c) => { issued.push(f.h.id); s.send(Cmd::Send(vec![response(f.h.id, false, c as i64, 0)])) }
+                        Ok(Event::Res(x, r)) if x == c => got = Some(r),
+                        _ => {}
+                    }
+                }
+            }
+            for (k, id) in fwd_ids.into_iter().enumerate() {
                 s.fwd(h, k, id, None);
                 match s.req_or_res(k, id) {
                     Ok(()) => {
@@ -1274,7 +1357,7 @@ fn run_fwd_case(h: &H, out: &mut Out, idx: &str, mode: &str) {
                 let deadline = Instant::now() + call_watchdog();
                 while Instant::now() < deadline && got.is_none() {
                     match s.ev.recv_timeout(Duration::from_millis(50)) {
-                        Ok(Event::Req(f)) if caller_of(&f) == Some(100 + k) => s.send(Cmd::Send(vec![response(f.h.id, false, (100 + k) as i64, 0)])),
+                        Ok(Event::Req(f)) if caller_of(&f) == Some(100 + k) => { issued.push(f.h.id); s.send(Cmd::Send(vec![response(f.h.id, false, (100 + k) as i64, 0)])) }
                         Ok(Event::Res(x, r)) if x == 100 + k => got = Some(r),
                         _ => {}
                     }
@@ -1283,6 +1366,13 @@ fn run_fwd_case(h: &H, out: &mut Out, idx: &str, mode: &str) {
                     fail(out, "call_after_forward", format!("call after forwarding id {} returned {}", id, own(&got, (100 + k) as i64)));
                     verdict = "bad".into();
                 }
+            }
+            // the ids the client issued itself are pairwise distinct, whatever ids were forwarded meanwhile
+            let mut sorted = issued.clone();
+            sorted.sort();
+            if let Some(w) = sorted.windows(2).find(|w| w[0] == w[1]) {
+                fail(out, "ids_not_distinct", format!("the client issued request id {} twice on one connection (ids of its own calls, in order: {:?}; forwarded meanwhile: {:?})", w[0], issued, fwd_ids));
+                verdict = "bad".into();
             }
         }
         "dup" => {
@@ -1519,7 +1609,7 @@ fn run_life_case(h: &H, out: &mut Out, idx: &str, kind: usize, seed: u64) {
         }};
     }
     check_served!("connect");
-    let mut steps: Vec<&str> = vec!["zero_timeout", "short_timeout", "error_response", "ser_err", "ser_panic", "de_err", "notifies", "batch", "cancel", "forward", "resubscribe", "oversize"];
+    let mut steps: Vec<&str> = vec!["big_request", "big_response", "zero_timeout", "short_timeout", "error_response", "ser_err", "ser_panic", "de_err", "notifies", "batch", "cancel", "forward", "resubscribe", "oversize"];
     r.shuffle(&mut steps);
     for step in steps {
         match step {
@@ -1539,6 +1629,55 @@ fn run_life_case(h: &H, out: &mut Out, idx: &str, kind: usize, seed: u64) {
                         s.send(Cmd::Send(vec![response_v(f.h.id, false, c as i64, c as i64, variant_of(&f))]));
                     } else {
                         s.req_stash.push(f);
+                    }
+                }
+            }
+            "big_request" => {
+                // requests whose frame is exactly 8191 / 8192 / 8193 / 16384 / 65536 bytes (the write buffers are 8 KiB)
+                for total in [8191usize, 8192, 8193, 16_384, 65_536] {
+                    let c = fresh(&mut next_c);
+                    let path = vpath(c, 12);
+                    let body = vec![b' '; total - 48 - path.len()];
+                    let tx = s.ev_tx.clone();
+                    match s.cl.clone() {
+                        Cl::B(cl) => { std::thread::spawn(move || { let r = cl.call_with_formats(&path, 1, Some(&body), 0).and_then(msg_to_value); let _ = tx.send(Event::Res(c, r)); }); }
+                        Cl::A(cl) => { h.rt.spawn(async move { let r = cl.call_with_formats(&path, 1, Some(&body), 0).await.and_then(msg_to_value); let _ = tx.send(Event::Res(c, r)); }); }
+                        Cl::W(cl) => { h.rt.spawn(async move { let r = cl.call_with_formats(&path, 1, Some(&body), 0).await.and_then(msg_to_value); let _ = tx.send(Event::Res(c, r)); }); }
+                    }
+                    let got = serve_until(&mut s, c, 0, call_watchdog());
+                    if own(&got, c as i64) != "own" {
+                        out.oracle_fail(&format!("mux.{}.life.big_request", kname), &format!("a call whose request frame is {} bytes returned {}", total, own(&got, c as i64)), &ops);
+                        if own(&got, c as i64) == "HANG" { saw_hang(); }
+                        verdict = "bad".into();
+                    }
+                }
+            }
+            "big_response" => {
+                // awaited answers whose frame is 8191 / 8192 / 8193 bytes and 70 kB (the read buffers are 8 KiB)
+                for total in [8191usize, 8192, 8193, 70_000] {
+                    let c = fresh(&mut next_c);
+                    s.call_v(h, c, 0, None);
+                    let deadline = Instant::now() + call_watchdog();
+                    let mut got = None;
+                    while Instant::now() < deadline && got.is_none() {
+                        match s.ev.recv_timeout(Duration::from_millis(50)) {
+                            Ok(Event::Req(f)) if caller_of(&f) == Some(c) => {
+                                let base = serde_json::to_vec(&json!({"tag": c, "c": c, "pad": ""})).unwrap().len();
+                                let pad = "p".repeat(total - 48 - 2 - base);
+                                let body = serde_json::to_vec(&json!({"tag": c, "c": c, "pad": pad})).unwrap();
+                                let frame = RawFrame::request(f.h.id, false, 1, b"/t", 2, &body).to_vec();
+                                debug_assert_eq!(frame.len(), total);
+                                s.send(Cmd::Send(vec![frame]));
+                            }
+                            Ok(Event::Req(f)) => s.req_stash.push(f),
+                            Ok(Event::Res(x, r)) if x == c => got = Some(r),
+                            Ok(Event::Res(x, r)) => s.stash.push((x, r)),
+                            _ => {}
+                        }
+                    }
+                    if own(&got, c as i64) != "own" {
+                        out.oracle_fail(&format!("mux.{}.life.big_response", kname), &format!("a call answered with a {}-byte frame returned {}", total, own(&got, c as i64)), &ops);
+                        verdict = "bad".into();
                     }
                 }
             }
@@ -1709,6 +1848,46 @@ fn run_life_case(h: &H, out: &mut Out, idx: &str, kind: usize, seed: u64) {
     s.send(Cmd::Close);
 }
 
+/// Drop paths: calls in flight are abandoned (tasks aborted) and every handle of the client is dropped while
+/// the peer has answered nothing. Nothing is asserted about the peer's view (the property does not speak
+/// about it); the run must simply get through, and a fresh client must work afterwards.
+fn run_drops_case(h: &H, out: &mut Out, idx: &str, kind: usize) {
+    let kname = KINDS[kind];
+    let op = format!("drops {} {}", idx, kind);
+    out.begin(&op);
+    if kind != 0 {
+        if let Ok(mut s) = h.open(kind) {
+            for c in 0..3 {
+                s.call_v(h, c, c * 5, None);
+            }
+            let seen = s.read(3).is_ok();
+            for c in 0..3 {
+                let _ = s.abort(h, c);
+            }
+            let Session { cl, cmd, ev, .. } = s;
+            drop(cl);
+            let _ = cmd.send(Cmd::Read(1));
+            let closed = matches!(ev.recv_timeout(Duration::from_millis(700)), Ok(Event::SrvErr(_)));
+            out.count(&format!("mux.{}.drops.requests_seen.{}", kname, seen));
+            out.count(&format!("mux.{}.drops.peer_saw_close.{}", kname, closed));
+            let _ = cmd.send(Cmd::Close);
+        }
+    }
+    // a fresh client afterwards
+    let mut verdict = "ok";
+    if let Ok(mut s) = h.open(kind) {
+        s.send(Cmd::AutoRead);
+        let _ = s.srv_done();
+        s.call_v(h, 0, 3, None);
+        if own(&serve_until(&mut s, 0, 0, call_watchdog()), 0) != "own" {
+            out.oracle_fail(&format!("mux.{}.fresh_client_after_drops", kname), "a fresh client after dropped ones was not served", &[op.clone()]);
+            verdict = "bad";
+        }
+        s.send(Cmd::Close);
+    }
+    out.case(&op, &format!("{} {}", idx, verdict), true);
+}
+
 fn permutations(n: usize) -> Vec<Vec<usize>> {
     fn go(cur: &mut Vec<usize>, used: &mut Vec<bool>, n: usize, out: &mut Vec<Vec<usize>>) {
         if cur.len() == n {
@@ -1778,7 +1957,7 @@ fn gen_mux(args: &Args, r: &mut Rng) -> (Vec<MuxCase>, Vec<BatchCase>) {
                     script.insert(pos, t);
                 }
                 let vars = (0..n).map(|_| r.below(NVARIANTS as u64) as usize).collect();
-                let frag = if r.chance(1, 3) { 1 + r.below(1 << 30) } else { 0 };
+                let frag = match r.below(6) { 0 | 1 => 1 + r.below(1 << 30), 2 if n <= 3 => ONE_BYTE | (1 + r.below(1 << 30)), _ => 0 };
                 cases.push(MuxCase { kind, n, script, vars, frag });
             }
         }
@@ -1786,6 +1965,10 @@ fn gen_mux(args: &Args, r: &mut Rng) -> (Vec<MuxCase>, Vec<BatchCase>) {
         for p in permutations(2) {
             for t in ["u0", "u1", "u2", "u3", "e0", "x0", "x1", "n0", "n1", "r0", "r1", "v0", "v1", "b0", "b1", "b2", "b3", "b4", "b5", "b6", "b7", "b8", "b9"] {
                 for pos in 0..=2 {
+                    // the ten large-body sizes take one position each per order (quick); all three in thorough
+                    if t.starts_with('b') && !args.thorough() && pos != (t[1..].parse::<usize>().unwrap() + p[0]) % 3 {
+                        continue;
+                    }
                     let mut script: Vec<String> = p.iter().map(|c| format!("r{c}")).collect();
                     script.insert(pos, t.to_string());
                     let vars = vec![r.below(NVARIANTS as u64) as usize, r.below(NVARIANTS as u64) as usize];
@@ -2512,9 +2695,17 @@ fn run_wtmo_case(h: &H, out: &mut Out, idx: &str, n: usize, mib: usize) {
 /// `k` frames nobody waits for arrive back to back — late responses of timed-out calls, unknown ids, or
 /// duplicates of an answered call — while one call is still pending; then that call's reply, then a
 /// later call. Nothing but the pending call's own reply may affect it.
+/// Consume the reply of the last `Send`/`SendRaw` if one is outstanding.
+fn strays_sent_guard(s: &mut Session) -> bool {
+    s.srv_done().is_ok()
+}
 fn run_lates_case(h: &H, out: &mut Out, idx: &str, kind: usize, k: usize, shape: &str) {
-    let kname = KINDS[kind];
-    let op = format!("lates {} {} {} {}", idx, kind, k, shape);
+    run_lates_case_in(h, out, "deadconn", idx, kind, k, shape)
+}
+fn run_lates_case_in(h: &H, out: &mut Out, fam: &str, idx: &str, kind: usize, k: usize, shape: &str) {
+    let kname_s = format!("{}", KINDS[kind]);
+    let kname = kname_s.as_str();
+    let op = format!("{} {} {} {} {}", if fam == "mux" { "mlates" } else { "lates" }, idx, kind, k, shape);
     out.begin(&op);
     let ops = [op.clone()];
     let Ok(mut s) = h.open(kind) else { return };
@@ -2538,7 +2729,7 @@ fn run_lates_case(h: &H, out: &mut Out, idx: &str, kind: usize, k: usize, shape:
     let v0 = (k * 3 + kind) % NVARIANTS;
     s.call_v(h, 0, v0, None);
     let Some(p) = req_of(&mut s, 0) else {
-        out.oracle_fail(&format!("deadconn.{}.setup", kname), "pending call's request not seen", &ops);
+        out.oracle_fail(&format!("{}.{}.setup", fam, kname), "pending call's request not seen", &ops);
         return;
     };
     let mut strays: Vec<Vec<u8>> = Vec::new();
@@ -2549,7 +2740,7 @@ fn run_lates_case(h: &H, out: &mut Out, idx: &str, kind: usize, k: usize, shape:
             }
             for c in 1..=k {
                 let Some(f) = req_of(&mut s, c) else {
-                    out.oracle_fail(&format!("deadconn.{}.setup", kname), &format!("request of call {} not seen", c), &ops);
+                    out.oracle_fail(&format!("{}.{}.setup", fam, kname), &format!("request of call {} not seen", c), &ops);
                     return;
                 };
                 // every fourth late answer is a large one
@@ -2558,8 +2749,46 @@ fn run_lates_case(h: &H, out: &mut Out, idx: &str, kind: usize, k: usize, shape:
             for c in 1..=k {
                 let r = s.res_of(c, call_watchdog());
                 if !matches!(&r, Some(Err(e)) if cls(e) == "Timeout") {
-                    out.oracle_fail(&format!("deadconn.{}.timeout_outcome", kname), &format!("unanswered call {} with a 30 ms timeout returned {}", c, own(&r, c as i64)), &ops);
+                    out.oracle_fail(&format!("{}.{}.timeout_outcome", fam, kname), &format!("unanswered call {} with a 30 ms timeout returned {}", c, own(&r, c as i64)), &ops);
                 }
+            }
+        }
+        "cancel" if kind != 0 => {
+            // k calls aborted while waiting; their answers arrive afterwards, in a row
+            for c in 1..=k {
+                s.call_v(h, c, (c * 5) % NVARIANTS, None);
+            }
+            for c in 1..=k {
+                let Some(f) = req_of(&mut s, c) else { return };
+                strays.push(response_v(f.h.id, false, c as i64, c as i64, variant_of(&f)));
+            }
+            for c in 1..=k {
+                let _ = s.abort(h, c);
+            }
+        }
+        "errs" => {
+            // k calls each answered with an error frame (their own id, ec 7), in a row: each fails alone
+            for c in 1..=k {
+                s.call_v(h, c, (c * 3) % NVARIANTS, None);
+            }
+            let mut errs = Vec::new();
+            for c in 1..=k {
+                let Some(f) = req_of(&mut s, c) else { return };
+                errs.push(error_response(f.h.id, 7));
+            }
+            if kind == 2 { s.send(Cmd::Send(errs)); } else { s.send(Cmd::SendRaw(errs.concat())); }
+            let _ = s.srv_done();
+            for c in 1..=k {
+                let r = s.res_of(c, call_watchdog());
+                if !matches!(&r, Some(Err(RepeError::ServerError { .. }))) {
+                    out.oracle_fail(&format!("{}.{}.error_response_outcome", fam, kname), &format!("call {} answered with an error frame returned {}", c, own(&r, c as i64)), &ops);
+                }
+            }
+        }
+        "push" if kind == 2 => {
+            // k server pushes in a row (a subscriber is listening): all delivered, in order
+            for j in 0..k {
+                strays.push(response(3_000_000_000 + j as u64, true, j as i64, -1));
             }
         }
         "dup" => {
@@ -2568,7 +2797,7 @@ fn run_lates_case(h: &H, out: &mut Out, idx: &str, kind: usize, k: usize, shape:
             s.send(Cmd::Send(vec![response_v(f.h.id, false, 1, 1, 0)]));
             let r = s.res_of(1, call_watchdog());
             if own(&r, 1) != "own" {
-                out.oracle_fail(&format!("deadconn.{}.setup", kname), &format!("answered call returned {}", own(&r, 1)), &ops);
+                out.oracle_fail(&format!("{}.{}.setup", fam, kname), &format!("answered call returned {}", own(&r, 1)), &ops);
             }
             for j in 0..k {
                 strays.push(if j % 4 == 3 { stray_response(f.h.id, 8) } else { response_v(f.h.id, false, 1, 1, 0) });
@@ -2580,18 +2809,40 @@ fn run_lates_case(h: &H, out: &mut Out, idx: &str, kind: usize, k: usize, shape:
             }
         }
     }
+    let mut sub = match (&s.cl, shape) {
+        (Cl::W(w), "push") => w.subscribe_notifies().ok(),
+        _ => None,
+    };
     // back to back, nothing matched in between
-    if kind == 2 {
-        s.send(Cmd::Send(strays));
-    } else {
-        s.send(Cmd::SendRaw(strays.concat()));
+    if !strays.is_empty() {
+        if kind == 2 {
+            s.send(Cmd::Send(strays));
+        } else {
+            s.send(Cmd::SendRaw(strays.concat()));
+        }
+        let _ = strays_sent_guard(&mut s);
     }
-    let _ = s.srv_done();
+    if let Some(rx) = sub.as_mut() {
+        let want: Vec<i64> = (0..k as i64).collect();
+        let got = h.rt.block_on(async {
+            let mut v = Vec::new();
+            while v.len() < k {
+                match tokio::time::timeout(call_watchdog(), rx.recv()).await {
+                    Ok(Some(m)) => v.push(serde_json::from_slice::<Value>(&m.body).ok().and_then(|x| tag_of(&x)).unwrap_or(-2)),
+                    _ => break,
+                }
+            }
+            v
+        });
+        if got != want {
+            out.oracle_fail(&format!("{}.{}.pushes_lost", fam, kname), &format!("{} pushes in a row: the subscriber saw {} of them ({:?}…)", k, got.len(), &got[..got.len().min(5)]), &ops);
+        }
+    }
     s.send(Cmd::Send(vec![response_v(p.h.id, false, 0, 0, variant_of(&p))]));
     let r = s.res_of(0, call_watchdog());
     let pending = own(&r, 0);
     if pending != "own" {
-        out.oracle_fail(&format!("deadconn.{}.pending_call_hit_by_unawaited_frames", kname), &format!("{} {} frames in a row that nobody waited for, then the pending call's reply: it returned {}", k, shape, pending), &ops);
+        out.oracle_fail(&format!("{}.{}.pending_call_hit_by_unawaited_frames", fam, kname), &format!("{} {} frames in a row that nobody waited for, then the pending call's reply: it returned {}", k, shape, pending), &ops);
         if pending == "HANG" { saw_hang(); }
     }
     let late = k + 2;
@@ -2604,12 +2855,191 @@ fn run_lates_case(h: &H, out: &mut Out, idx: &str, kind: usize, k: usize, shape:
         None => own(&s.res_of(late, Duration::from_millis(200)), late as i64),
     };
     if later != "own" {
-        out.oracle_fail(&format!("deadconn.{}.later_call_after_unawaited_frames", kname), &format!("after {} {} frames in a row a later call returned {}", k, shape, later), &ops);
+        out.oracle_fail(&format!("{}.{}.later_call_after_unawaited_frames", fam, kname), &format!("after {} {} frames in a row a later call returned {}", k, shape, later), &ops);
         if later == "HANG" { saw_hang(); }
     }
-    out.count(&format!("deadconn.{}.lates.{}", kname, shape));
+    out.count(&format!("{}.{}.lates.{}", fam, kname, shape));
     let canon = |x: &str| if x == "own" { "own".to_string() } else if x == "HANG" { "HANG".to_string() } else { "Err".to_string() };
     out.case(&op, &format!("{} pending {} later {}", idx, canon(&pending), canon(&later)), true);
+    s.send(Cmd::Close);
+}
+
+/// Seed C06-S's window: a batch with a per-entry timeout and more entries than batch workers; the peer is
+/// silent for longer than the timeout, then answers whatever arrives. On a healthy connection every entry
+/// ends as its own answer or as a timeout of its own — never as a connection error because ANOTHER entry
+/// timed out.
+fn run_batchtmo_case(h: &H, out: &mut Out, idx: &str, kind: usize, n: usize) {
+    let kname = KINDS[kind];
+    let op = format!("batchtmo {} {} {}", idx, kind, n);
+    out.begin(&op);
+    let ops = [op.clone()];
+    let Ok(mut s) = h.open(kind) else { return };
+    s.send(Cmd::AutoRead);
+    let _ = s.srv_done();
+    let reqs: Vec<(String, Value)> = (0..n).map(|j| (vpath(j, 0), req_body(j))).collect();
+    let (btx, brx) = smpsc::channel::<Vec<Result<Value, RepeError>>>();
+    let t = Duration::from_millis(150);
+    match s.cl.clone() {
+        Cl::B(cl) => { std::thread::spawn(move || { let _ = btx.send(cl.batch_json_with_timeout(reqs, t)); }); }
+        Cl::A(cl) => { h.rt.spawn(async move { let _ = btx.send(cl.batch_json_with_timeout(reqs, t).await); }); }
+        Cl::W(cl) => { h.rt.spawn(async move { let _ = btx.send(cl.batch_json_with_timeout(reqs, t).await); }); }
+    }
+    // silent for 400 ms after the first request, then every request that arrives is answered at once
+    let mut first: Option<Instant> = None;
+    let mut held: Vec<RawFrame> = Vec::new();
+    let deadline = Instant::now() + call_watchdog() + Duration::from_secs(5);
+    let mut res = None;
+    while Instant::now() < deadline && res.is_none() {
+        if let Ok(x) = brx.try_recv() {
+            res = Some(x);
+            break;
+        }
+        let silent = first.map(|f| f.elapsed() < Duration::from_millis(400)).unwrap_or(true);
+        if !silent && !held.is_empty() {
+            // late answers to the entries that have timed out meanwhile: inert
+            let late: Vec<Vec<u8>> = held.drain(..).map(|f| { let c = caller_of(&f).unwrap_or(0); response_v(f.h.id, false, c as i64, c as i64, 0) }).collect();
+            s.send(Cmd::Send(late));
+        }
+        match s.ev.recv_timeout(Duration::from_millis(10)) {
+            Ok(Event::Req(f)) if f.h.notify == 0 => {
+                if first.is_none() { first = Some(Instant::now()); }
+                if first.unwrap().elapsed() < Duration::from_millis(400) {
+                    held.push(f);
+                } else {
+                    let c = caller_of(&f).unwrap_or(0);
+                    s.send(Cmd::Send(vec![response_v(f.h.id, false, c as i64, c as i64, 0)]));
+                }
+            }
+            _ => {}
+        }
+    }
+    let (mut owns, mut tmos, mut bad) = (0usize, 0usize, Vec::new());
+    match &res {
+        None => {
+            out.oracle_fail(&format!("deadconn.{}.batch_hang", kname), "batch_json_with_timeout did not return", &ops);
+            saw_hang();
+        }
+        Some(v) => {
+            for (j, r) in v.iter().enumerate() {
+                match r {
+                    Ok(val) if tag_of(val) == Some(j as i64) => owns += 1,
+                    Err(e) if cls(e) == "Timeout" => tmos += 1,
+                    Ok(val) => bad.push(format!("slot {} holds tag {:?}", j, tag_of(val))),
+                    Err(e) => bad.push(format!("slot {}: {}", j, io_kind(e))),
+                }
+            }
+            if v.len() != n || !bad.is_empty() {
+                out.oracle_fail(&format!("deadconn.{}.batch_entry_failed_on_healthy_connection", kname), &format!("batch of {} with a 150 ms per-entry timeout against a peer that was silent for 400 ms and then answered: {} own, {} timed out, and {} entries ended otherwise: {:?}", n, owns, tmos, bad.len(), &bad[..bad.len().min(4)]), &ops);
+            }
+        }
+    }
+    out.count(&format!("deadconn.{}.batchtmo.{}", kname, if owns > 0 && tmos > 0 { "mixed" } else if tmos > 0 { "all_timed_out" } else { "all_own" }));
+    out.case(&op, &format!("{} {}", idx, if res.is_some() && bad.is_empty() { "ok" } else { "bad" }), true);
+    s.send(Cmd::Close);
+}
+
+/// Two knobs at once (blocking client): a short write timeout is configured and the calls carry a generous
+/// per-call timeout; the peer answers later than the write timeout is long. The write timeout is about
+/// writes only: the calls get their answers.
+fn run_knobs_case(h: &H, out: &mut Out, idx: &str, n: usize) {
+    let op = format!("knobs {} 0 {}", idx, n);
+    out.begin(&op);
+    let ops = [op.clone()];
+    let Ok(mut s) = h.open(0) else { return };
+    if let Cl::B(cl) = &s.cl {
+        let _ = cl.set_write_timeout(Some(Duration::from_millis(100)));
+    }
+    s.send(Cmd::AutoRead);
+    let _ = s.srv_done();
+    for c in 0..n {
+        s.call_v(h, c, c * 2, Some(CALL_TIMEOUT));
+    }
+    // collect the requests, answer them 300 ms later
+    let t0 = Instant::now();
+    let mut reqs: Vec<RawFrame> = Vec::new();
+    while reqs.len() < n && t0.elapsed() < call_watchdog() {
+        match s.ev.recv_timeout(Duration::from_millis(20)) {
+            Ok(Event::Req(f)) => reqs.push(f),
+            Ok(Event::Res(x, r)) => s.stash.push((x, r)),
+            _ => {}
+        }
+    }
+    std::thread::sleep(Duration::from_millis(300));
+    let answers: Vec<Vec<u8>> = reqs.iter().map(|f| { let c = caller_of(f).unwrap_or(0); response_v(f.h.id, false, c as i64, c as i64, variant_of(f)) }).collect();
+    s.send(Cmd::Send(answers));
+    let mut verdict = "ok";
+    for c in 0..n {
+        let r = s.res_of(c, call_watchdog());
+        if own(&r, c as i64) != "own" {
+            out.oracle_fail("deadconn.blocking.write_timeout_affects_wait", &format!("write timeout 100 ms configured, per-call timeout 9 s, the peer answered after 300 ms: call {} returned {}", c, own(&r, c as i64)), &ops);
+            verdict = "bad";
+        }
+    }
+    // a zero write timeout is rejected by the OS (InvalidInput), `None` switches it off: neither breaks the client
+    if let Cl::B(cl) = &s.cl {
+        let _ = cl.set_write_timeout(Some(Duration::ZERO));
+        let _ = cl.set_write_timeout(None);
+    }
+    s.call_v(h, n, 1, None);
+    if own(&serve_until(&mut s, n, 0, call_watchdog()), n as i64) != "own" {
+        out.oracle_fail("deadconn.blocking.later_call_after_knobs", "a call after reconfiguring the write timeout was not served", &ops);
+        verdict = "bad";
+    }
+    out.case(&op, &format!("{} {}", idx, verdict), true);
+    s.send(Cmd::Close);
+}
+
+/// Seed C06-T's window: a call with a per-call timeout whose request is larger than the socket buffers,
+/// while the peer does not read for longer than that timeout; the peer then reads and answers. The call
+/// itself may return its answer or a timeout; the small call in flight before it and a later call must get
+/// their own answers (one slow write is not a connection failure).
+fn run_slowpeer_case(h: &H, out: &mut Out, idx: &str, kind: usize, mib: usize) {
+    let kname = KINDS[kind];
+    let op = format!("slowpeer {} {} {}", idx, kind, mib);
+    out.begin(&op);
+    let ops = [op.clone()];
+    let Ok(mut s) = h.open(kind) else { return };
+    s.call_v(h, 0, 0, None);
+    s.send(Cmd::WaitUnread(48));
+    let _ = s.srv_done();
+    // the big call, through the `_with_timeout` twin (150 ms)
+    let pad = "x".repeat(mib << 20);
+    s.call(h, 7, json!({"c": 107, "pad": pad}), Some(Duration::from_millis(150)));
+    s.send(Cmd::WaitUnread(1 << 16));
+    let _ = s.srv_done();
+    std::thread::sleep(Duration::from_millis(400));
+    s.send(Cmd::AutoRead);
+    let _ = s.srv_done();
+    let (mut small, mut big) = (None, None);
+    let deadline = Instant::now() + call_watchdog() + Duration::from_secs(5);
+    while Instant::now() < deadline && (small.is_none() || big.is_none()) {
+        match s.ev.recv_timeout(Duration::from_millis(50)) {
+            Ok(Event::Req(f)) => { let c = caller_of(&f).unwrap_or(99); s.send(Cmd::Send(vec![response_v(f.h.id, false, c as i64, c as i64, variant_of(&f))])); }
+            Ok(Event::Res(0, r)) => small = Some(r),
+            Ok(Event::Res(7, r)) => big = Some(r),
+            Ok(Event::Res(x, r)) => s.stash.push((x, r)),
+            _ => {}
+        }
+    }
+    let b = match &big { None => "HANG".to_string(), Some(Ok(v)) if tag_of(v) == Some(7) => "own".into(), Some(Err(e)) if cls(e) == "Timeout" => "Timeout".into(), Some(Ok(_)) => "other".into(), Some(Err(e)) => format!("Err({})", io_kind(e)) };
+    let a = own(&small, 0);
+    out.count(&format!("deadconn.{}.slowpeer.big.{}", kname, b.split('(').next().unwrap()));
+    if b != "own" && b != "Timeout" {
+        out.oracle_fail(&format!("deadconn.{}.slow_write_call", kname), &format!("a {} MiB call with a 150 ms timeout against a peer that read late returned {}", mib, b), &ops);
+        if b == "HANG" { saw_hang(); }
+    }
+    if a != "own" {
+        out.oracle_fail(&format!("deadconn.{}.inflight_call_lost_to_slow_write", kname), &format!("the call in flight while another call's large write was slow returned {} although the peer answered it", a), &ops);
+        if a == "HANG" { saw_hang(); }
+    }
+    s.call_v(h, 1, 1, None);
+    let later = own(&serve_until(&mut s, 1, 0, call_watchdog()), 1);
+    if later != "own" {
+        out.oracle_fail(&format!("deadconn.{}.later_call_lost_to_slow_write", kname), &format!("a call made after a slow large write (big call ended {}) returned {}", b, later), &ops);
+        if later == "HANG" { saw_hang(); }
+    }
+    let canon = |x: &str| if x == "own" { "own" } else if x == "HANG" { "HANG" } else { "Err" };
+    out.case(&op, &format!("{} small {} big {} later {}", idx, canon(&a), if b == "own" || b == "Timeout" { "ok" } else { "bad" }, canon(&later)), true);
     s.send(Cmd::Close);
 }
 
@@ -3311,6 +3741,10 @@ fn main() {
     let rt = tokio::runtime::Builder::new_multi_thread().worker_threads(8).enable_all().build().unwrap();
     let srv_rt = tokio::runtime::Builder::new_multi_thread().worker_threads(2).enable_all().build().unwrap();
     let h = H { rt, srv_rt };
+    let h1 = H {
+        rt: tokio::runtime::Builder::new_multi_thread().worker_threads(1).max_blocking_threads(1).enable_all().build().unwrap(),
+        srv_rt: tokio::runtime::Builder::new_multi_thread().worker_threads(1).enable_all().build().unwrap(),
+    };
     let mut rng = Rng::new(args.seed);
     if let Some(ops) = args.replay_ops() {
         for (k, l) in ops.iter().enumerate() {
@@ -3325,6 +3759,7 @@ fn main() {
                 }
                 Some("seq") if w.len() >= 5 => run_seq_case(&h, &mut out, &idx, w[2].parse().unwrap(), w[3].parse().unwrap(), w[4].parse().unwrap(), 0),
                 Some("seqbig") if w.len() >= 6 => run_seq_case(&h, &mut out, &idx, w[2].parse().unwrap(), w[3].parse().unwrap(), w[4].parse().unwrap(), w[5].parse().unwrap()),
+                Some("drops") if w.len() >= 3 => run_drops_case(&h, &mut out, &idx, w[2].parse().unwrap()),
                 Some("life") if w.len() >= 4 => run_life_case(&h, &mut out, &idx, w[2].parse().unwrap(), w[3].parse().unwrap()),
                 Some("fwd") if w.len() >= 4 => run_fwd_case(&h, &mut out, &idx, w[3]),
                 Some("batch") if w.len() >= 6 => {
@@ -3346,6 +3781,10 @@ fn main() {
                     }
                 }
                 Some("fwdres") => run_fwd_residue_case(&h, &mut out, &idx),
+                Some("knobs") if w.len() >= 4 => run_knobs_case(&h, &mut out, &idx, w[3].parse().unwrap()),
+                Some("batchtmo") if w.len() >= 4 => run_batchtmo_case(&h, &mut out, &idx, w[2].parse().unwrap(), w[3].parse().unwrap()),
+                Some("slowpeer") if w.len() >= 4 => run_slowpeer_case(&h, &mut out, &idx, w[2].parse().unwrap(), w[3].parse().unwrap()),
+                Some("mlates") if w.len() >= 5 => run_lates_case_in(&h, &mut out, "mux", &idx, w[2].parse().unwrap(), w[3].parse().unwrap(), w[4]),
                 Some("lates") if w.len() >= 5 => run_lates_case(&h, &mut out, &idx, w[2].parse().unwrap(), w[3].parse().unwrap(), w[4]),
                 Some("abandon") if w.len() >= 4 => run_abandon_case(&h, &mut out, &idx, w[2].parse().unwrap(), w[3].parse().unwrap()),
                 Some("wtmo") if w.len() >= 5 => run_wtmo_case(&h, &mut out, &idx, w[3].parse().unwrap(), w[4].parse().unwrap()),
@@ -3411,6 +3850,28 @@ fn main() {
                 q += 1;
             }
         }
+        for kind in 0..3 {
+            let mut shapes = vec![(31usize, "unknown"), (32, "unknown"), (33, "unknown"), (64, "dup"), (65, "unknown"), (32, "dup"), (33, "late"), (17, "errs")];
+            if args.thorough() {
+                shapes.extend([(256, "unknown"), (1000, "dup"), (257, "late")]);
+            }
+            for (k, shape) in shapes {
+                if out.oracle_failures >= 12 { break; }
+                run_lates_case_in(&h, &mut out, "mux", &format!("k{q}"), kind, k, shape);
+                q += 1;
+            }
+        }
+        for kind in 0..3 {
+            run_drops_case(&h, &mut out, &format!("dr{q}"), kind);
+            q += 1;
+        }
+        // (l) the async clients on a runtime with ONE worker thread: callers, the reader task and their timers share it
+        for kind in 1..3 {
+            run_seq_case(&h1, &mut out, &format!("q{q}"), kind, 4, if args.thorough() { 600 } else { 120 }, 0);
+            q += 1;
+            run_lates_case_in(&h1, &mut out, "mux", &format!("k{q}"), kind, 33, "late");
+            q += 1;
+        }
         for mode in ["ids", "dup", "reuse"] {
             run_fwd_case(&h, &mut out, &format!("f{q}"), mode);
             q += 1;
@@ -3458,10 +3919,27 @@ fn main() {
             c += 1;
         }
         run_fwd_residue_case(&h, &mut out, "fr0");
+        // a batch with a timeout and more entries than workers; a slow large write under a per-call timeout
+        for kind in 0..3 {
+            if out.oracle_failures >= 12 { break; }
+            if kind == 0 {
+                run_knobs_case(&h, &mut out, "kn0", 3);
+            }
+            run_batchtmo_case(&h, &mut out, &format!("bt{kind}"), kind, 100);
+            run_slowpeer_case(&h, &mut out, &format!("sp{kind}"), kind, 12);
+        }
         // many frames in a row that nobody waits for, with a call still pending
         let mut lq = 0;
         for kind in 0..3 {
-            for (k, shape) in [(1usize, "late"), (7, "late"), (8, "late"), (9, "late"), (16, "late"), (64, "late"), (8, "unknown"), (9, "unknown"), (64, "unknown"), (9, "dup"), (16, "dup")] {
+            let mut shapes = vec![(1usize, "late"), (2, "late"), (7, "late"), (8, "late"), (9, "late"), (16, "late"), (17, "late"), (64, "late"), (65, "late"), (8, "unknown"), (9, "unknown"), (64, "unknown"), (9, "dup"), (16, "dup"), (65, "dup"),
+                (8, "errs"), (33, "errs"), (9, "cancel"), (33, "cancel"), (9, "push"), (65, "push")];
+            if args.thorough() {
+                shapes.extend([(256, "late"), (256, "unknown"), (1000, "unknown"), (1000, "dup"), (256, "errs"), (256, "cancel"), (1000, "push")]);
+            }
+            for (k, shape) in shapes {
+                if (shape == "cancel" && kind == 0) || (shape == "push" && kind != 2) {
+                    continue;
+                }
                 if out.oracle_failures >= 12 {
                     break;
                 }
